@@ -5,17 +5,25 @@ from vf.props import _rtc
 LEVEL = "other"
 LEVEL_TEXT = _rtc.MIXED
 EXPLANATION = ("proved: copy-coverage and ownership obligations of the _blank_copy/_copy chains for every solver class (fixed attribute sets shown "
-               "syntactically, one structural execution per class decides them for all histories); bounded: interleaved histories on trees of branches")
+               "syntactically, one structural execution per class decides them for all histories); the copy-on-write protocol of the Z3 solver object that "
+               "branches share (FullFrontend over a ghost backend: a shared solver object is never extended, the branch starts with the parent's pending "
+               "constraints) and the branch obligations of ReplacementFrontend / HybridFrontend (own dictionaries, own frontends); bounded: interleaved histories on trees of branches")
 TECHNIQUE = "frame/ownership obligations on the copy protocol + bounded run-time contracts on branch trees"
 RULE = _rtc.RTC_RULE
-FUNCTIONS = ["<SolverClass>.__init__/_blank_copy/_copy for " + c for c in ["Solver", "SolverCacheless", "SolverReplacement", "SolverHybrid", "SolverVSA", "SolverConcrete", "SolverStrings", "SolverComposite", "SolverCompositeChild"]]
+FUNCTIONS = ["FullFrontend._get_solver", "FullFrontend._copy", "FullFrontend._add", "ReplacementFrontend._copy", "ReplacementFrontend._blank_copy", "HybridFrontend._copy",
+             "HybridFrontend._blank_copy"] + ["<SolverClass>.__init__/_blank_copy/_copy for " + c for c in ["Solver", "SolverCacheless", "SolverReplacement", "SolverHybrid", "SolverVSA", "SolverConcrete", "SolverStrings", "SolverComposite", "SolverCompositeChild"]]
 TRUSTED = _rtc.RTC_TRUSTED
-ASSUMPTIONS = ["declared shared cells: ASTs (immutable), the Z3 solver under _tls (copy-on-write by _get_solver, bounded part), composite children (_claim), the composite's template frontend",
-               "the shared-Z3-solver and composite-children protocols are only checked in the bounded part"]
+ASSUMPTIONS = ["declared shared cells: ASTs (immutable), the Z3 solver under _tls (copy-on-write by _get_solver: proved over a ghost backend, fullfrontend.*), composite children (_claim), the composite's template frontend",
+               "the composite-children protocol is only checked in the bounded part"]
 
 
 def tasks(tier, seed=0):
     from vf.contracts import statecov
     out = [task("vf.contracts.statecov", "ob_statecov", f"statecov.{c}/copy+ownership+pickle", ["C14", "C18"], replay="vf.contracts.statecov:replay", cls=c)
            for c in statecov.CLASSES]
+    from vf.contracts import fullfront, replfront, hybrid
+    # the copy-on-write protocol of the shared Z3 solver object (FullFrontend over a ghost backend) and the branch obligations of the wrappers
+    out += [task("vf.contracts.fullfront", "ob_fullfront", f"fullfrontend.{m}/protocol", ["C14", "C11"], method=m, tier=tier) for m in ("_get_solver", "_add", "branch", "eval", "simplify")]
+    out += [task("vf.contracts.replfront", "ob_replacement", f"replacement.{m}/equiv+inv", ["C14", "C13"], method=m, tier=tier) for m in ("_copy", "_blank_copy")]
+    out += [task("vf.contracts.hybrid", "ob_hybrid", f"hybrid.{m}/dispatch+inv", ["C14", "C13"], method=m, tier=tier) for m in ("branch", "blank_copy")]
     return out + _rtc.rtc_tasks("C14", tier, seed)
